@@ -136,6 +136,7 @@ func hijackClose(rw http.ResponseWriter) {
 func (s *Stub) ServeHTTP(rw http.ResponseWriter, r *http.Request) {
 	w := s.W
 	body, _ := io.ReadAll(r.Body)
+	w.transit()
 	switch {
 	case r.URL.Path == "/healthz":
 		o := s.record(r, "healthz", body)
@@ -321,3 +322,5 @@ func sarKey(s *authorizationv1.SubjectAccessReviewSpec) string {
 	}
 	return strings.Join(parts, "|")
 }
+
+type authorizationSpec = authorizationv1.SubjectAccessReviewSpec
